@@ -386,14 +386,15 @@ class Domain:
     """Number domain: 'mp' (mpmath, everything numeric) or 'sym' (sympy exact, with the
     names in `symbolic` kept as plain real symbols)."""
 
-    def __init__(self, kind, bind: Bindings, symbolic=()):
+    def __init__(self, kind, bind: Bindings, symbolic=(), dps: int = DPS):
         self.kind = kind
         self.bind = bind
         self.symbolic = frozenset(symbolic)
+        self.dps = dps
         if kind == "mp":
             import mpmath  # pylint: disable=import-outside-toplevel
             self.mp = mpmath.mp
-            self.mp.dps = DPS
+            self.mp.dps = dps
         else:
             import sympy  # pylint: disable=import-outside-toplevel
             self.sp = sympy
@@ -635,7 +636,7 @@ def _lower(res, inner_dom: Domain, dom: Domain, names):
 
 def _to_mp(x, dom):
     import sympy as sp  # pylint: disable=import-outside-toplevel
-    v = sp.N(x, DPS + 10)
+    v = sp.N(x, dom.dps + 10)
     re, im = v.as_real_imag()
     if not (re.is_Number and im.is_Number):
         raise Unknown(f"reference did not become numeric: {x}")
@@ -645,7 +646,16 @@ def _to_mp(x, dom):
     return r
 
 
-def _close(a, b, mp):
+def _err(lo, hi):
+    """Rounding-error estimate of a value: difference between its 60- and 120-digit evaluations."""
+    if isinstance(lo, tuple) and isinstance(hi, tuple):
+        return max(_err(x, y) for x, y in zip(lo, hi))
+    if isinstance(lo, tuple) or isinstance(hi, tuple):
+        return 0
+    return abs(lo - hi)
+
+
+def _close(a, b, mp, slack=0):
     if isinstance(a, tuple) != isinstance(b, tuple):
         # library may return the scalar 0 for the zero vector
         if isinstance(a, tuple) and b == 0:
@@ -655,9 +665,9 @@ def _close(a, b, mp):
         else:
             return False
     if isinstance(a, tuple):
-        return all(_close(x, y, mp) for x, y in zip(a, b))
+        return all(_close(x, y, mp, slack) for x, y in zip(a, b))
     scale = max(1, abs(a), abs(b))
-    return abs(a - b) <= TOL * scale
+    return abs(a - b) <= TOL * scale + slack
 
 
 def _finite(v, mp):
@@ -927,26 +937,34 @@ def child_run(job: dict) -> dict:
                     signal.setitimer(signal.ITIMER_REAL, 4 * OP_WALL_S)
                     for point in (0, 1):
                         bind = Bindings(point, world.assumes, world.fargs)
-                        domA = Domain("mp", bind)
-                        key = core.digest([kind, ast, op.get("var"), op.get("order"), op.get("vars"), point, world.assumes, world.fargs])
-                        if key not in ref_cache:
+                        # everything is evaluated at 60 and at 120 digits: the difference estimates the
+                        # rounding error of huge-factor-times-exact-zero shapes (catastrophic cancellation),
+                        # which must not be mistaken for a wrong value
+                        lo_ref = lo_got = None
+                        for dps in (DPS, 2 * DPS):
+                          domA = Domain("mp", bind, dps=dps)
+                          key = core.digest([kind, ast, op.get("var"), op.get("order"), op.get("vars"), point, world.assumes, world.fargs, dps])
+                          if key not in ref_cache:
                             if kind == "build":
                                 ref_cache[key] = ref_eval(ast, domA)
                             else:
                                 names = _diff_var_names(op, world)
-                                domB = Domain("sym", bind, set(names))
+                                domB = Domain("sym", bind, set(names), dps=dps)
                                 sym = ref_eval(ast, domB)
                                 xs = [domB.var(nm) for nm in names]
                                 dd = tuple(sp.diff(c, *xs) for c in sym) if isinstance(sym, tuple) else sp.diff(sym, *xs)
                                 ref_cache[key] = _lower(dd, domB, domA, set(names))
-                        ref = ref_cache[key]
-                        got = out_eval(result, domA, world)
+                          ref = ref_cache[key]
+                          got = out_eval(result, domA, world)
+                          if dps == DPS:
+                              lo_ref, lo_got = ref, got
+                        slack = 1000 * (_err(lo_ref, ref) + _err(lo_got, got))
                         if not _finite(ref, domA.mp):
                             # e.g. d/dt norm(w(t)) where w(t) is identically zero: the reference
                             # itself is undefined there, nothing can be demanded
                             inconclusive.append("reference-singular")
                             break
-                        if not _close(ref, got, domA.mp):
+                        if not _close(ref, got, domA.mp, slack):
                             violation = {"oracle": "value", "detail": f"point {point}: reference {_fmt_val(ref)} != library {_fmt_val(got)}", "step": step, "op": op, "library_result": outcome[:600]}
                             break
                 except Unknown as u:
